@@ -313,6 +313,7 @@ def install_points():
     from dv import sched, simkernel as sk
     mods = sk.load_node()
     A, N, H = mods["application"].Application, mods["node"].Node, mods["_helpers"]
+    sched.clear()
     return sched.install({A.send_request: None, N.route_request: None, H.SequenceGenerator.next_sequence: None})
 
 
@@ -373,6 +374,102 @@ def concurrent_senders(decisions, nthreads=2):
         return ex.trace, problems
     finally:
         w.close()
+
+
+def install_points_timeout():
+    from dv import sched, simkernel as sk
+    mods = sk.load_node()
+    A, N = mods["application"].Application, mods["node"].Node
+    sched.clear()
+    # the sender after its wait, the reader thread delivering the answer, and the I/O thread handing the bytes over
+    return sched.install({A.send_request: r"wait\(|raise|except|finally|del |return|answer", A.receive_answer: None,
+                          N._handle_connections: r"add_in_bytes"})
+
+
+def answer_vs_timeout(decisions):
+    """The answer arrives in the instant in which the sender's timeout expires.  One schedule.  The sender gets the
+    answer, or it times out and the answer goes to the unexpected-answer handler; the answer is never lost and no
+    thread fails."""
+    from dv import sched
+    from diameter.message.commands import CreditControlRequest
+    w = W.NodeWorld({"peers": [{"name": "peer1.example", "ip": ["10.1.1.1"]}],
+                     "apps": [{"app_id": 4, "auth": True, "peers": [0], "handler": "answer"}],
+                     "node_timers": {"idle": 5000, "dwa": 50, "cer": 50, "cea": 50, "wakeup": 50}})
+    try:
+        w.start()
+        c = w.handshake_in("peer1.example", auth=[4], ip="10.1.1.1", hbh=0x100)
+        app = w.apps[0]
+        m = CreditControlRequest()
+        m.session_id, m.origin_host, m.origin_realm = "n;1", W.NODE_HOST.encode(), W.NODE_REALM.encode()
+        m.destination_realm, m.service_context_id = W.NODE_REALM.encode(), "x"
+        m.cc_request_type, m.cc_request_number = 1, 0
+        m.header.end_to_end_identifier = 0x5200
+        n0 = len(c.refresh())
+        ex = sched.Explorer(decisions)
+        sched.attach(w.k, ex)
+        fed = []
+
+        def feeder():
+            w.k.block(lambda: False, timeout=2)
+            reqs = [f for f in c.refresh()[n0:] if f.is_request and f.code == 272]
+            if reqs:
+                fed.append(reqs[0])
+                w.feed_msg(c, {"k": "ANS", "host": "peer1.example", "hbh": reqs[0].h["hbh"], "e2e": reqs[0].h["e2e"]}, run=False)
+        w.k.spawn(feeder, name="feeder")            # created first: wakes before the sender at +2
+        box = w.k.spawn(lambda: app.send_request(m, timeout=2), name="sender")
+        w.k.run()
+        n_ans = len(w.answers_seen)
+        ex.armed = True
+        w.k.advance(2)
+        ex.armed = False
+        w.k.run()
+        w.advance(1)
+        problems = []
+        unexpected = [a for a in w.answers_seen[n_ans:]]
+        if not fed:
+            problems.append(("setup", "no request was written"))
+        elif not box["done"]:
+            problems.append(("sender-blocked", "send_request still blocked after its timeout"))
+        elif box["exc"] is None:
+            r = box["result"]
+            if r is None or r.header.end_to_end_identifier != 0x5200:
+                problems.append(("wrong-answer", f"sender was handed {r!r}"))
+            if unexpected:
+                problems.append(("answer-delivered-twice", f"sender got the answer and handle_answer saw {unexpected}"))
+        elif isinstance(box["exc"], TimeoutError):
+            if not unexpected:
+                problems.append(("answer-lost", "the sender timed out and the answer that arrived in the same instant reached neither "
+                                 "the sender nor handle_answer"))
+        else:
+            problems.append((f"sender-error/{type(box['exc']).__name__}", repr(box["exc"])))
+        for sig, d in W.monitor_threads(w):
+            problems.append((f"thread-died/{sig}", d))
+        return ex.trace, problems
+    finally:
+        w.close()
+
+
+def schedule_part_timeout(rec, shard, nshards, thorough):
+    from dv import sched
+    from dv.common import fp
+    info = install_points_timeout()
+    if shard == 0:
+        rec.extra["preemption_functions_timeout"] = info
+    holder = {}
+
+    def run_one(dec):
+        tr, problems = answer_vs_timeout(dec)
+        holder["last"] = problems
+        return tr
+    n = 0
+    for dec, trace in sched.enumerate_schedules(run_one, 3 if thorough else 2, shard, nshards):
+        case = {"answer_vs_timeout": True, "schedule": {str(i): c for i, c in sorted(dec.items())}}
+        for kind, detail in holder["last"]:
+            rec.violation(f"C10/answer-vs-timeout/{kind}", case, detail)
+        n += 1
+        rec.case(fp("sched-timeout", tuple(sorted(dec.items()))) if dec else None,
+                 ["schedule-exploration", "answer-vs-timeout", f"deviations:{len(dec)}"], sample=lambda: dict(case, choice_points=len(trace)))
+    rec.extra["answer_vs_timeout_schedules"] = rec.extra.get("answer_vs_timeout_schedules", 0) + n
 
 
 def equal_hop_by_hop_on_two_connections(rec):
@@ -639,6 +736,7 @@ def shard_main(shard, nshards, tier, scale):
     shrunk = set()
     schedule_part(rec, shard, nshards, thorough)
     schedule_part_loss(rec, shard, nshards, thorough)
+    schedule_part_timeout(rec, shard, nshards, thorough)
     n = int((10000 if thorough else 800) * scale)
 
     def body(case):
@@ -658,7 +756,7 @@ def run(tier, scale=1.0):
     rec = Recorder(PID)
     for d in hyp.pool_run(shard_main, (tier, scale)):
         rec.merge(d)
-    required = {"slow-selection:chosen-lost:True": 1, "slow-selection:outcome:sent": 1, "slow-selection:outcome:not-routable": 1,
+    required = {"answer-vs-timeout": 1, "slow-selection:chosen-lost:True": 1, "slow-selection:outcome:sent": 1, "slow-selection:outcome:not-routable": 1,
                 "slow-selection:redialled:True": 1, "send-vs-loss": 1, "equal-hop-by-hop-two-connections": 1, "schedule-exploration": 1, "senders:3": 1, "npeers:4": 1, "napps:3": 1, "select:first": 1, "select:None": 1, "state:waiting-dwa": 1,
                 "state:disconnecting": 1, "state:disconnecting-late-dwa": 1, "state:awaiting": 1, "state:closed": 1, "sends:4": 1}
     return finish(rec, tier=tier, level="exploration", rule=RULE, assumptions=ASSUME, t0=t0,
@@ -671,6 +769,16 @@ def replay(doc):
         install_points()
         _, problems = concurrent_senders({int(i): c for i, c in case["schedule"].items()}, case["concurrent_senders"])
         sigs = [f"C10/concurrent/{k}" for k, _ in problems]
+        if doc["signature"] in sigs:
+            print(f"  replayed: {problems[0][1][:300]}")
+            print(f"VIOLATION property={PID} replay=(replay)")
+            return 1
+        print(f"[{PID}] replay: signature {doc['signature']} does not reproduce (got {sigs})")
+        return 0
+    if case.get("answer_vs_timeout"):
+        install_points_timeout()
+        _, problems = answer_vs_timeout({int(i): c for i, c in case["schedule"].items()})
+        sigs = [f"C10/answer-vs-timeout/{k}" for k, _ in problems]
         if doc["signature"] in sigs:
             print(f"  replayed: {problems[0][1][:300]}")
             print(f"VIOLATION property={PID} replay=(replay)")
